@@ -367,7 +367,8 @@ fn distributor(cfg: &Cfg, rep: &mut Report, h: u64, variant: u32) {
         let (root, proofs) = if positional { build_positional(keccak, &leaves) } else { build_sorted(keccak, &leaves) };
         (root, proofs, recs)
     };
-    let n = 2 + rng.idx(14);
+    // (one leaf: the root is the leaf and the honest proof is empty)
+    let n = if rng.chance(1, 8) { 1 } else { 2 + rng.idx(14) };
     // indices start at 0, somewhere in the middle, or end at u32::MAX
     // (0, 128 and 256 make indices that agree modulo 128 / 256 meet in one history: packed flags)
     let bases: [u32; 7] = [0, 0, 128, 256, 384, 1000, u32::MAX - 19];
@@ -411,7 +412,7 @@ fn distributor(cfg: &Cfg, rep: &mut Report, h: u64, variant: u32) {
         let k = rng.below(100);
         if k < 6 && variant != 3 {
             // root change: a new tree whose indices partly overlap the old ones
-            let n2 = 2 + rng.idx(14);
+            let n2 = if rng.chance(1, 8) { 1 } else { 2 + rng.idx(14) };
             let b2 = if positional { 0 } else { *rng.pick(&bases) };
             let t = mk_tree(&mut rng, n2, b2);
             watch.extend(t.2.iter().map(|r| r.0));
@@ -470,7 +471,7 @@ fn distributor(cfg: &Cfg, rep: &mut Report, h: u64, variant: u32) {
             "wrong-index-same-proof" => (recs[j].0, usr, amt, proofs[i].clone()),
             _ => (idx, usr, amt, vec![]),
         };
-        let genuine = kind == "valid" || (kind == "zero-amount" && amt == 0) || (kind == "proof-of-other-index" && proofs[j] == proofs[i] && recs.len() == 1) || (kind == "empty-proof" && recs.len() == 1);
+        let genuine = kind == "valid" || (kind == "wrong-index-same-proof" && recs.len() == 1) || (kind == "zero-amount" && amt == 0) || (kind == "proof-of-other-index" && proofs[j] == proofs[i] && recs.len() == 1) || (kind == "empty-proof" && recs.len() == 1);
         let before: Vec<bool> = watch.iter().map(|x| invoke::<bool>(e, &c, "is_claimed", args!(e, *x)).must("is_claimed")).collect();
         e.mock_all_auths();
         let got: Result<(), Fail> = invoke(e, &c, "claim", args!(e, pidx, users[pusr], pamt, to_vec(e, &proof)));
